@@ -22,7 +22,7 @@ RULE = ("Hypothesis: 1-4 integer-tick well-formed single-channel sequences (arbi
         "sequences, a signature on a sequence other than the meta target, and a simultaneous event pair. Distinct by digest.")
 ASSUMPTIONS = ["mido's MIDI file writer/reader is trusted", "trailing rests are not stored by the writer and not part of the statement"]
 TIERS = {"quick": dict(shards=8, examples=400, alt_ppqn=[480], alt_shards=2),
-         "thorough": dict(shards=16, examples=5000, alt_ppqn=[480, 7, 1000], alt_shards=4)}
+         "thorough": dict(shards=16, examples=5000, alt_ppqn=[480, 7, 1000], alt_shards=2)}
 
 
 @st.composite
@@ -32,7 +32,8 @@ def _case(draw):
     ks_ticks = draw(st.lists(st.one_of(st.just(0), st.integers(0, 600)), max_size=4, unique=True))
     metas = [[] for _ in range(k)]
     for t in ts_ticks:
-        metas[draw(st.integers(0, k - 1))].append(["ts", t, draw(st.integers(1, 16)), draw(st.sampled_from(gens.DENOMS))])
+        sig = draw(st.one_of(st.tuples(st.integers(1, 16), st.sampled_from(gens.DENOMS)), st.sampled_from([(8, 8), (4, 4), (2, 2)])))
+        metas[draw(st.integers(0, k - 1))].append(["ts", t, sig[0], sig[1]])
     for t in ks_ticks:
         metas[draw(st.integers(0, k - 1))].append(["ks", t, draw(st.sampled_from(gens.KEYS))])
     seqs = []
